@@ -401,6 +401,7 @@ def judge(ctx, case, impl):
     # the property demands success
     if outcome == 'refused':
         if is_mixed(case, info):
+            # repaired by 8396437; a recurrence is a violation again (the key is listed as fixed)
             ctx.oracle_fail(K_MIXED, 'a class with a cascade=False key and another key (cascade=True/null) to the same class: '
                             'a reference through the other key is refused as if it went through the cascade=False key', case)
         else:
@@ -453,7 +454,6 @@ def run(ctx):
             ctx.compare('tables after: model = raw dump', case, m[1], rows)
             ctx.compare('link tables after: model = raw dump', case, m[2], links)
             ctx.compare('ids get() still returns: model = real cache+table', case, m[3], sorted(tuple(x) for x in reach))
-            ctx.compare('mixed-policy classification: model = harness', case, m[4], 'mixed' if is_mixed(case, None) else 'unmixed')
 
 
 def replay(case):
